@@ -27,7 +27,10 @@ def main():
     for p in patches:
         r = sh('git', '-C', '/repo', 'apply', p)
         if r.returncode != 0:
+            r = sh('git', '-C', '/repo', 'apply', '--3way', p)
+        if r.returncode != 0:
             print('%s: does not apply: %s' % (p, r.stdout.strip()[:200]))
+            sh('git', '-C', '/repo', 'reset', '-q', '--hard', 'HEAD')
             continue
         try:
             fired, errors = {}, {}
@@ -47,7 +50,7 @@ def main():
             if errors:
                 print('   analysis errors: %s' % errors)
         finally:
-            sh('git', '-C', '/repo', 'checkout', '--', '.')
+            sh('git', '-C', '/repo', 'reset', '-q', '--hard', 'HEAD')
             # files added by the patch
             sh('git', '-C', '/repo', 'clean', '-fdq', '--', 'glue')
     # evidence files were rewritten by the runs on the patched tree: regenerate them on the clean tree
